@@ -32,6 +32,7 @@
 #include <functional>
 #include <zlib.h>
 
+#include <setjmp.h>
 #include <sys/socket.h>
 #include <unistd.h>
 #include <fcntl.h>
@@ -96,6 +97,7 @@ class RawCodec : public ProtobufCodecLite
 
 static std::vector<string> g_events;
 static bool g_abandoned = false;
+static bool g_caseAborted = false;
 static string g_kind;
 
 static void onRawMessage(const TcpConnectionPtr&, const MessagePtr& m, Timestamp)
@@ -153,6 +155,27 @@ static void fillRpc(RpcMessage* m, const std::vector<string>& w)
   if (w[7] != "~") m->set_error(static_cast<ErrorCode>(atoi(w[7].c_str())));
 }
 
+// ---- assertions inside muduo during a delivery are caught (-Wl,--wrap=__assert_fail) and reported as a line
+// "D ASSERT <function> <expression>" instead of killing the batch: the case is over (later ops: "D skipped (aborted)"),
+// its objects are leaked on purpose (they are in the middle of a call).
+static sigjmp_buf g_jmp;
+static bool g_armed = false;
+static string g_assertText;
+extern "C" void __real___assert_fail(const char* expr, const char* file, unsigned int line, const char* func);
+extern "C" void __wrap___assert_fail(const char* expr, const char* file, unsigned int line, const char* func)
+{
+  if (g_armed)
+  {
+    string f(func ? func : "?");
+    string name = f.find("HttpRequest::setMethod") != string::npos ? "HttpRequest::setMethod" : f;
+    for (size_t i = 0; i < name.size(); ++i) if (name[i] == ' ') name[i] = '_';
+    g_assertText = name + " " + (expr ? expr : "?");
+    g_armed = false;
+    siglongjmp(g_jmp, 1);
+  }
+  __real___assert_fail(expr, file, line, func);
+}
+
 // ---- a real TcpConnection on a socketpair, driven from this thread ------------------------------
 static EventLoop* g_loop = NULL;
 static void noClose(const TcpConnectionPtr&) {}
@@ -171,6 +194,11 @@ struct RealConn
     conn->setMessageCallback(defaultMessageCallback);
     conn->setCloseCallback(noClose);
     conn->connectEstablished();
+  }
+  void leak()          // after a caught assertion: never touch the objects again
+  {
+    if (conn) { new TcpConnectionPtr(conn); conn.reset(); }
+    if (peer >= 0) { ::close(peer); peer = -1; }
   }
   void close()
   {
@@ -271,6 +299,7 @@ int main()
     {
       g_kind = w[2];
       string tag = w.size() > 3 ? spec2(w[3]) : string();
+      if (g_caseAborted) { rc.leak(); g_caseAborted = false; }
       rc.close();
       buf.reset(new Buffer);
       lite.reset();
@@ -351,8 +380,19 @@ int main()
     {
       string d = spec2(w[1]);
       g_events.clear();
+      if (g_caseAborted) { printf("D skipped (aborted)\n"); fflush(stdout); continue; }
       if (d.empty()) { printf("D skipped\n"); fflush(stdout); continue; }
+      g_armed = true;
+      if (sigsetjmp(g_jmp, 1) != 0)
+      {
+        g_caseAborted = true;
+        rc.leak();
+        printf("D ASSERT %s\n", g_assertText.c_str());
+        fflush(stdout);
+        continue;
+      }
       rc.deliver(d);
+      g_armed = false;
       bool eof = false;
       string sent = rc.drainPeer(&eof);
       if (g_kind == "conn")
